@@ -29,7 +29,7 @@ VENDORS = {
     "nexus": (["Cisco Nexus 9336"], "exit"),
     "arista": (["Arista DCS-7368"], "exit"),
     "aruba": (["Aruba AP-505"], "exit"),
-    "b4com": (["B4com CS4100", "B4com CS2148P"], "exit"),
+    "b4com": (["B4com CS4100", "B4com B4T-CS2148P", "B4com B4T-CS4148Q", "B4com CS2148P"], "exit"),
     "iosxr": (["Cisco ASR 9000", "Cisco ASR9006", "Cisco XRv 9000"], "asr"),
     "optixtrans": (["Huawei OptiXtrans DC908"], "common"),
     "pc": (["PC"], "common"),
@@ -38,14 +38,17 @@ VENDORS = {
 # models that edit a candidate configuration (harness knowledge about the devices: VRP8 boxes are the CE and NE series; S-series and H3C,
 # classic IOS and NX-OS write straight into the running configuration; the old B4com CS2148P firmware has no commit either)
 # (Aruba Instant is left out: its access-point environment commands are a session of their own outside `conf t`)
-TWOSTAGE = re.compile(r"^(Huawei (CE|NE)\d|Arista |Cisco (ASR|XRv)|B4com (?!CS2148P)|Juniper |Ribbon |Nokia )")
+TWOSTAGE = re.compile(r"^(Huawei (CE|NE)\d|Arista |Cisco (ASR|XRv)|B4com (?!(B4T-)?CS2148P)|Juniper |Ribbon |Nokia )")
+# models that write straight into the running configuration: a `commit` typed there is an error of its own
+NOCOMMIT = re.compile(r"^(Huawei (S\d|Quidway)|H3C |Cisco (Catalyst|Nexus|\d)|B4com B4T-CS2148P)")
 # vendors that flatten the patch into one line per command: only the wrapper clauses of the property apply to them
 FLAT_VENDORS = {"juniper": ["Juniper MX960", "Juniper QFX5120"], "ribbon": ["Ribbon NPT"], "nokia": ["Nokia 7750"], "routeros": ["RouterOS RB4011"]}
 
 SYN_DEPLOY = [
     {"pat": "interface *", "timeout": 45, "answers": ["Y"], "kids": [
         {"pat": "b *", "timeout": 7, "answers": [], "kids": []},
-        {"pat": "undo d", "timeout": 9, "answers": ["yes", "N"], "kids": []}]},
+        {"pat": "undo d", "timeout": 9, "answers": ["yes", "N"], "kids": []},
+        {"pat": "peer *", "timeout": 17, "answers": ["n0", "Y", "y2", "N"], "spellings": True, "kids": []}]},
     {"pat": "undo a", "timeout": 11, "answers": ["Y"], "kids": []},
     {"pat": "route-policy *", "timeout": 13, "answers": [], "kids": []},
     {"pat": "commit", "timeout": 77, "answers": [], "kids": []},
@@ -63,7 +66,9 @@ def deploy_text(rules, depth=0):
     for r in rules:
         out.append("    " * depth + r["pat"] + "  %%timeout=%d" % r["timeout"] + ("  %ifcontext=" + ",".join(r["ifctx"]) if r.get("ifctx") else ""))
         for k, a in enumerate(r["answers"]):
-            out.append("    " * (depth + 1) + "dialog: question %d? ::: %s" % (k, a))
+            # (some question texts of one rule differ only in blanks or letter case -- firmware spellings of one prompt: every line counts)
+            qtext = ["question %d?" % k, "Continue?[Y/N]", "Continue? [Y/N]", "continue?[y/n]"][k % 4] if r.get("spellings") else "question %d?" % k
+            out.append("    " * (depth + 1) + "dialog: %s ::: %s" % (qtext, a))
         out += deploy_text(r["kids"], depth + 1)
     return out
 
@@ -143,7 +148,7 @@ def observe(hw, vclass, pt, do_commit, do_finalize, drules, judge_params, check_
     sent = [{"d": c.level, "row": c.cmd.split(), "timeout": int(c.timeout) if c.timeout is not None else -1,
              "answers": [q.answer for q in (c.questions or [])]} for c in cl]
     return {"v": vclass, "pt": pt_json(pt), "shown": shown, "paths": paths, "sent": sent, "docommit": do_commit, "dofinalize": do_finalize,
-            "twostage": bool(TWOSTAGE.match(hw.model)), "flat": getattr(registry_connector.get().match(hw), "NAME", "") in FLAT_VENDORS,
+            "twostage": bool(TWOSTAGE.match(hw.model)), "nocommit": bool(NOCOMMIT.match(hw.model)), "flat": getattr(registry_connector.get().match(hw), "NAME", "") in FLAT_VENDORS,
             "drules": drules, "ctxs": ctxs, "judgeParams": judge_params, "checkModel": check_model}
 
 
@@ -186,7 +191,7 @@ def run(ctx):
             rec.update(observe(hw, vclass, pt, dc, df, drules, jp, cm))
         except Exception as e:
             rec.update({"v": vclass, "pt": [], "shown": [], "paths": [], "sent": [], "docommit": dc, "dofinalize": df, "drules": [],
-                        "judgeParams": False, "checkModel": False, "twostage": False, "flat": False, "ctxs": [], "exc": repr(e)})
+                        "judgeParams": False, "checkModel": False, "twostage": False, "nocommit": False, "flat": False, "ctxs": [], "exc": repr(e)})
         rec["hw"] = hw.model if hasattr(hw, "model") else str(hw)
         recs.append(rec)
         ctx.count()
